@@ -36,7 +36,7 @@
 (* events to its view, persists cursors, and reconnects after a cut /      *)
 (* Resync / GoingAway with its last persisted cursor.  Actions: Change,    *)
 (* Compact (server forgets old cursors), Subscribe (request), Accept,      *)
-(* EmitHeader / EmitAd (one message each), SayResync, SayGoingAway, Cut    *)
+(* EmitHeader / EmitAd (one message each), SayBye(Resync | GoingAway), Cut  *)
 (* (the connection ends, possibly inside the last message), ReadHeader /   *)
 (* ReadAd (client consumes one message), Lost (client sees the end of the  *)
 (* connection).                                                            *)
